@@ -1,2 +1,118 @@
--- stub: replaced by the C11 driver
-def main : IO Unit := pure ()
+/-
+  Driver.C11 — the sequential request-queue model (Golib/Queue/Seq.lean) on lines.
+
+    Q  <cap> <op>;<op>;…            → <ret>[<ev>,<ev>…];…  | <items>/<cap>
+    DQ <cap1> <cap2> <op>;…         → <ret>[<i>:<ev>,…];…  | <items1>/<cap1> <items2>/<cap2>
+    T  <timeto> <polled>@<now>;…    → got <x> | timeout <now> | running      (timed get over a clock)
+
+  queue ops   p<x> put   f<x> putForce   g get (blocking; `blocked` when empty)   n getNoWait
+              t<k> getTimeout with k extra polls   x clear   c<cap> setCapacity   s size   k getCapacity
+  double      p1_<x> p2_<x> f1_<x> f2_<x> g n t<k> x c<c1>_<c2> s s1 s2 k1 k2
+  element 0 = nil.   events: a accepted, F failed, O overflowed, d delivered, c cleared, w swallowed
+-/
+import Golib.Queue.Seq
+import Driver.Common
+
+open Drv Queue
+
+def retStr : Ret → String
+  | .bool b => if b then "t" else "f"
+  | .val x => toString x
+  | .int n => toString n
+  | .unit => "-"
+  | .blocked => "blocked"
+
+def evStr : Ev → String
+  | .accepted x => s!"a{x}"
+  | .failed x => s!"F{x}"
+  | .overflowed x => s!"O{x}"
+  | .delivered x => s!"d{x}"
+  | .cleared x => s!"c{x}"
+  | .swallowed x => s!"w{x}"
+
+def parseOp (s : String) : Option Op :=
+  match s with
+  | "g" => some .get
+  | "n" => some .getNoWait
+  | "x" => some .clear
+  | "s" => some .size
+  | "k" => some .getCapacity
+  | _ =>
+    match s.toList with
+    | 'p' :: rest => (parseNat (String.ofList rest)).map .put
+    | 'f' :: rest => (parseNat (String.ofList rest)).map .putForce
+    | 't' :: rest => (parseNat (String.ofList rest)).map .getTimeout
+    | 'c' :: rest => (parseInt (String.ofList rest)).map .setCapacity
+    | _ => none
+
+def parseDOp (s : String) : Option DOp :=
+  match s with
+  | "g" => some .get
+  | "n" => some .getNoWait
+  | "x" => some .clear
+  | "s" => some .size
+  | "s1" => some .size1
+  | "s2" => some .size2
+  | "k1" => some .getCapacity1
+  | "k2" => some .getCapacity2
+  | _ =>
+    match s.toList with
+    | 'p' :: '1' :: '_' :: rest => (parseNat (String.ofList rest)).map .put1
+    | 'p' :: '2' :: '_' :: rest => (parseNat (String.ofList rest)).map .put2
+    | 'f' :: '1' :: '_' :: rest => (parseNat (String.ofList rest)).map .putForce1
+    | 'f' :: '2' :: '_' :: rest => (parseNat (String.ofList rest)).map .putForce2
+    | 't' :: rest => (parseNat (String.ofList rest)).map .getTimeout
+    | 'c' :: rest =>
+      match (String.ofList rest).splitOn "_" with
+      | [a, b] => do some (.setCapacity (← parseInt a) (← parseInt b))
+      | _ => none
+    | _ => none
+
+def qShow (q : Q) : String := listOf toString q.items ++ "/" ++ toString q.cap
+
+/-- per-op output, accumulated in reverse (histories are short; no quadratic append) -/
+def runQ (q : Q) : List Op → List String → Q × List String
+  | [], acc => (q, acc.reverse)
+  | op :: ops, acc =>
+    let s := step q op
+    runQ s.1 ops ((retStr s.2.1 ++ "[" ++ ",".intercalate (s.2.2.map evStr) ++ "]") :: acc)
+
+def runDQ (d : DQ) : List DOp → List String → DQ × List String
+  | [], acc => (d, acc.reverse)
+  | op :: ops, acc =>
+    let s := dstep d op
+    runDQ s.1 ops ((retStr s.2.1 ++ "[" ++ ",".intercalate (s.2.2.map (fun e => s!"{e.1}:{evStr e.2}")) ++ "]") :: acc)
+
+def parseOps {α : Type} (f : String → Option α) (s : String) : Option (List α) :=
+  if s == "-" || s == "" then some [] else (s.splitOn ";").mapM f
+
+def parseTick (s : String) : Option Tick :=
+  match s.splitOn "@" with
+  | [p, n] => do some ⟨← parseNat p, ← parseInt n⟩
+  | _ => none
+
+def answer (line : String) : String :=
+  match line.splitOn " " with
+  | ["Q", cap, ops] =>
+    match parseInt cap, parseOps parseOp ops with
+    | some c, some os =>
+      let r := runQ ⟨[], c⟩ os []
+      ";".intercalate r.2 ++ " | " ++ qShow r.1
+    | _, _ => "bad-op"
+  | ["DQ", c1, c2, ops] =>
+    match parseInt c1, parseInt c2, parseOps parseDOp ops with
+    | some a, some b, some os =>
+      let r := runDQ ⟨⟨[], a⟩, ⟨[], b⟩⟩ os []
+      ";".intercalate r.2 ++ " | " ++ qShow r.1.q1 ++ " " ++ qShow r.1.q2
+    | _, _, _ => "bad-op"
+  | ["T", timeto, ticks] =>
+    match parseInt timeto, parseOps parseTick ticks with
+    | some tt, some tks =>
+      match timedGet tt tks with
+      | some (.got x) => s!"got {x}"
+      | some (.timedOut t) => s!"timeout {t}"
+      | none => "running"
+    | _, _ => "bad-op"
+  | _ => "bad-op"
+
+def main : IO Unit := statelessLoop answer
